@@ -47,6 +47,20 @@ func init() {
 			add("rst", "close", 1, 1, pair)
 			add("close", "none", 0, 2, pair)
 			add("fin", "none", 1, 2, pair)
+			// the link dies at the instant the subscription's response frame has been delivered
+			// (placed by a frame-relative cut, so it costs no deviation)
+			for _, c := range []string{"fin", "rst"} {
+				for _, rc := range []int{0, 1} {
+					ps = append(ps, Param{Name: fmt.Sprintf("respcut-%s-rc%d", c, rc), Bound: single,
+						V: map[string]int{"reconnect": rc, "k": 1, "respcut": 1}, S: map[string]string{"c1": "none", "c2": "none", "cut": c}})
+					ps = append(ps, Param{Name: fmt.Sprintf("respcut-%s-rc%d-desc", c, rc), Bound: single,
+						V: map[string]int{"reconnect": rc, "k": 1, "respcut": 1, "desc": 1}, S: map[string]string{"c1": "none", "c2": "none", "cut": c}})
+				}
+			}
+			// three live subscriptions established together; the oldest ends first
+			ps = append(ps, Param{Name: "none-k3-sync", Bound: pair, V: map[string]int{"k": 3, "sync": 1}, S: map[string]string{"c1": "none", "c2": "none"}})
+			ps = append(ps, Param{Name: "close+none-rc0-k1-desc", Bound: single, V: map[string]int{"k": 1, "desc": 1}, S: map[string]string{"c1": "close", "c2": "none"}})
+			ps = append(ps, Param{Name: "fin+none-rc1-k1-desc", Bound: single, V: map[string]int{"k": 1, "reconnect": 1, "desc": 1}, S: map[string]string{"c1": "fin", "c2": "none"}})
 			return ps
 		},
 		Body: termBody,
@@ -60,6 +74,25 @@ func termBody(s *vsched.Sched, p Param) {
 	if err != nil {
 		s.Violate("HARNESS: setup: %v", err)
 		return
+	}
+	if p.I("respcut") == 1 {
+		sw.w.Net.ArmFrame(0, vnet.FrameCut{Kind: faultKinds[p.Str("cut")], Dir: vnet.S2C, Frame: 0, Where: vnet.After})
+	}
+	if p.I("sync") == 1 {
+		sw.srv.syncK = k
+		s.EnvEnabled = func(name string) bool {
+			switch name {
+			case "sub-go":
+				return sw.srv.Entered() >= k
+			case "prod-go":
+				for _, st := range sw.subs {
+					if _, _, ret, _, _ := st.snapshot(); !ret {
+						return false
+					}
+				}
+			}
+			return true
+		}
 	}
 	obs := NewObs()
 	s.Teardown = func() {
@@ -96,7 +129,11 @@ func termBody(s *vsched.Sched, p Param) {
 				// the caller": callers drop the value of a failed call (DESIGN §3 C08).
 				continue
 			}
-			want := make([]int, n)
+			ni := n
+			if p.I("sync") == 1 && i == 0 {
+				ni = 1 // the oldest of the three streams is short
+			}
+			want := make([]int, ni)
 			for j := range want {
 				want[j] = (i+1)*1000 + j
 			}
@@ -107,7 +144,7 @@ func termBody(s *vsched.Sched, p Param) {
 				s.Violate("C08: the channel handed to the caller of subscription %d was never closed (causes: %s, %s; reconnect=%d; received %v); alive: %s",
 					i, p.Str("c1"), p.Str("c2"), p.I("reconnect"), got, strings.Join(s.Alive(), " "))
 			}
-			if p.Str("c1") == "none" && fmt.Sprint(got) != fmt.Sprint(want) {
+			if p.Str("c1") == "none" && p.I("respcut") == 0 && fmt.Sprint(got) != fmt.Sprint(want) {
 				s.Violate("C07: undisturbed subscription %d received %v, want %v", i, got, want)
 			}
 		}
@@ -126,7 +163,11 @@ func termBody(s *vsched.Sched, p Param) {
 	for i := 0; i < k; i++ {
 		i := i
 		s.Go(fmt.Sprintf("sub-%d", i), func() {
-			sw.subscribe(s, i, n, func() bool { return true })
+			ni := n
+			if p.I("sync") == 1 && i == 0 {
+				ni = 1
+			}
+			sw.subscribe(s, i, ni, func() bool { return true })
 		})
 	}
 	if c := p.Str("c1"); c != "none" {
